@@ -92,3 +92,38 @@ Theorem generate_cli_too_deep Q S valid d n ifs fs f t :
 Proof.
   intros Hd Hf Hw. unfold generate_cli, load_schema. rewrite (load_typedefs_too_deep S _ n ifs fs f t Hd Hf Hw). reflexivity.
 Qed.
+
+(** ** deprecated members survive: the query asks with includeDeprecated: true *)
+Lemma filter_all {A} (l : list A) (f : A -> bool) : (forall x, f x = true) -> filter f l = l.
+Proof. intros H. induction l as [|x r IH]; [reflexivity|]. simpl. rewrite H, IH. reflexivity. Qed.
+
+Lemma listed_schema_the_query D S : listed_schema the_query D S = S.
+Proof.
+  unfold listed_schema. destruct S as [qn mn ts]. simpl. f_equal.
+  induction ts as [|d r IH]; [reflexivity|]. simpl. rewrite IH. f_equal.
+  destruct d; simpl; unfold listed_fields, listed_values; simpl; rewrite ?filter_all; reflexivity.
+Qed.
+
+Theorem load_schema_q_the_query D S : load_schema_q the_query D S = load_schema S.
+Proof. unfold load_schema_q. rewrite listed_schema_the_query. reflexivity. Qed.
+
+Theorem load_schema_deprecated_roundtrip D S : schema_loadable S = true -> load_schema_q the_query D S = Some S.
+Proof. intros H. rewrite load_schema_q_the_query. apply load_schema_roundtrip. exact H. Qed.
+
+Lemma generate_real_unfold D S valid d :
+  generate_real D S valid d = match load_schema S with Some S' => generate_s S' valid d | None => GError end.
+Proof. unfold generate_real. rewrite load_schema_q_the_query. reflexivity. Qed.
+
+(** asked without includeDeprecated (either place), a deprecated member is not listed *)
+Theorem deprecated_field_not_listed Qy D tn f t fs :
+  iq_fields_deprecated Qy = false -> is_dep (dep_fields D) tn f = true -> ~ In (f, t) (listed_fields Qy D tn fs).
+Proof. intros H1 H2 Hi. unfold listed_fields in Hi. apply filter_In in Hi as [_ Hi]. simpl in Hi. rewrite H1, H2 in Hi. discriminate. Qed.
+
+Theorem deprecated_value_not_listed Qy D tn v vs :
+  iq_values_deprecated Qy = false -> is_dep (dep_values D) tn v = true -> ~ In v (listed_values Qy D tn vs).
+Proof. intros H1 H2 Hi. unfold listed_values in Hi. apply filter_In in Hi as [_ Hi]. rewrite H1, H2 in Hi. discriminate. Qed.
+
+Theorem without_include_deprecated : forall Qy D tn,
+  (forall f t fs, iq_fields_deprecated Qy = false -> is_dep (dep_fields D) tn f = true -> ~ In (f, t) (listed_fields Qy D tn fs)) /\
+  (forall v vs, iq_values_deprecated Qy = false -> is_dep (dep_values D) tn v = true -> ~ In v (listed_values Qy D tn vs)).
+Proof. intros Qy D tn. split; [intros f t fs; apply deprecated_field_not_listed | intros v vs; apply deprecated_value_not_listed]. Qed.
